@@ -102,6 +102,8 @@ structure Tmpl where
   alts : List AltDesc
   /-- the body ends with `xsl:apply-imports` (used only by `process`) -/
   applyImports : Bool := false
+  /-- after its marker the body calls the named template with this id (`xsl:call-template`; 0 = none) -/
+  call : Nat := 0
   deriving DecidableEq, Repr, Inhabited
 
 /-- `XalanMatchPatternData`; `alt` is ghost bookkeeping (which alternative produced the entry) -/
@@ -237,12 +239,18 @@ def wholeScore (am : AltMatch) (t : Tmpl) : Option DefScore := firstScore (am t)
 def modeOk (mode ruleMode : Nat) : Bool :=
   (mode == 0 && ruleMode == 0) || (mode != 0 && ruleMode != 0 && ruleMode == mode)
 
-/-- quiet body (getQuietConflictWarnings() == true): first entry in list order whose mode fits and whose whole
-pattern matches -/
+/-- does the entry's pattern test succeed?  Unchanged code: the *whole* union pattern is evaluated for every entry;
+with proposed/C10-union-per-alternative.diff (`XalanMatchPatternData::getMatchScore`): only the alternative the entry
+stands for.  (Which one is in the source is regenerated by the translator.) -/
+def entryHit (am : AltMatch) (m : MPD) : Bool :=
+  if Generated.C10.perAlternativeMatch then am m.tmpl m.alt else (wholeScore am m.tmpl).isSome
+
+/-- quiet body (getQuietConflictWarnings() == true): first entry in list order whose mode fits and whose pattern test
+succeeds -/
 def findQuietList (am : AltMatch) (mode : Nat) : List MPD → Option Tmpl
   | [] => none
   | m :: rest =>
-    if modeOk mode m.tmpl.mode && (wholeScore am m.tmpl).isSome then some m.tmpl
+    if modeOk mode m.tmpl.mode && entryHit am m then some m.tmpl
     else findQuietList am mode rest
 
 /-- loop state of the conflict-reporting body -/
@@ -263,8 +271,8 @@ def dupTest (pm m : MPD) : Bool :=
   if Generated.C10.dupSkipByPatternString then pm.tmpl.pat == m.tmpl.pat && pm.tmpl.prio == m.tmpl.prio
   else pm.tmpl == m.tmpl
 
-/-- one iteration of the do-while of the reporting body -/
-def reportStep (am : AltMatch) (mode : Nat) (s : RState) (m : MPD) : RState :=
+/-- one iteration of the do-while of the reporting body — whole-pattern match, priority from the match score -/
+def reportStepOld (am : AltMatch) (mode : Nat) (s : RState) (m : MPD) : RState :=
   if modeOk mode m.tmpl.mode then
     let dup := match s.prev with
       | some pm => dupTest pm m
@@ -286,6 +294,30 @@ def reportStep (am : AltMatch) (mode : Nat) (s : RState) (m : MPD) : RState :=
           else s
         | _, _ => { s with best := some m, bestPrio := some pr, conflicts := [] }
   else s
+
+/-- one iteration of the reporting body with proposed/C10-union-per-alternative.diff: another alternative of the rule that
+is the best match so far is skipped; the entry's own alternative is matched; it is ranked by the priority it is filed
+under (`getPriorityOrDefault`); the first match is taken whatever its priority -/
+def reportStepAlt (am : AltMatch) (mode : Nat) (s : RState) (m : MPD) : RState :=
+  if modeOk mode m.tmpl.mode then
+    let skip := match s.best with
+      | some b => b.tmpl == m.tmpl
+      | none => false
+    if skip then s
+    else if am m.tmpl m.alt then
+      let pr : Int := m.prioOrDefault
+      match s.best, s.bestPrio with
+      | some b, some bp =>
+        if pr > bp then { s with best := some m, bestPrio := some pr, conflicts := [] }
+        else if pr = bp then
+          { s with best := some m, bestPrio := some pr, conflicts := addIfNotFound s.conflicts b ++ [m] }
+        else s
+      | _, _ => { s with best := some m, bestPrio := some pr, conflicts := [] }
+    else s
+  else s
+
+def reportStep (am : AltMatch) (mode : Nat) (s : RState) (m : MPD) : RState :=
+  if Generated.C10.perAlternativeMatch then reportStepAlt am mode s m else reportStepOld am mode s m
 
 /-- reporting body: the loop, then `if (nConflicts > 0) bestMatchedPattern = conflicts[0]` -/
 def findReportList (am : AltMatch) (mode : Nat) (l : List MPD) : Option Tmpl :=
@@ -474,28 +506,43 @@ inductive Tok where
   | text (s : String)
   deriving DecidableEq, Repr
 
-/-- what instantiating the chosen rule for one node produces, rules being reduced to "write my marker, then
-optionally `xsl:apply-imports`"; no rule ⇒ the built-in rule of the node type (§5.8), as dispatched in
-`ElemTemplateElement::findTemplateToTransformChild`. `via = some t`: we are inside `t`'s `apply-imports`. -/
+/-- what instantiating the chosen rule for one node produces, rule bodies being reduced to "write my marker, optionally
+`xsl:call-template` a named template (whose body is: marker, optionally `xsl:apply-imports`), optionally
+`xsl:apply-imports`"; no rule ⇒ the built-in rule of the node type (§5.8), as dispatched in
+`ElemTemplateElement::findTemplateToTransformChild`. `via = some t`: we are inside an `apply-imports` whose current
+template is `t`.  `callKeeps`: `xsl:call-template` leaves the current template rule unchanged (§5.6) — `true` in the
+specification; in the implementation model it is `!Generated.C10.callTemplateChangesCurrentRule`
+(`ElemTemplate::startElement` pushes the called template as current template in the unchanged code). -/
 def processWith (doc : Array NodeRec) (findTop : Nat → Nat → Option Tmpl)
-    (findImp : Tmpl → Nat → Nat → Option Tmpl) : Nat → Nat → Nat → Option Tmpl → List Tok
+    (findImp : Tmpl → Nat → Nat → Option Tmpl) (named : Nat → Option Tmpl) (callKeeps : Bool) :
+    Nat → Nat → Nat → Option Tmpl → List Tok
   | 0, _, _, _ => [.text "FUEL"]
   | f + 1, n, mode, via =>
     let found := match via with
       | none => findTop n mode
       | some cur => findImp cur n mode
     match found with
-    | some t => .rule t.id :: (if t.applyImports then processWith doc findTop findImp f n mode (some t) else [])
+    | some t =>
+      let callPart : List Tok := match (if t.call = 0 then none else named t.call) with
+        | some nt =>
+          .rule nt.id ::
+            (if nt.applyImports then
+              processWith doc findTop findImp named callKeeps f n mode (some (if callKeeps then t else nt))
+             else [])
+        | none => []
+      .rule t.id :: callPart ++
+        (if t.applyImports then processWith doc findTop findImp named callKeeps f n mode (some t) else [])
     | none =>
       let r := doc.getD n default
       match r.kind with
-      | .element | .root => r.kids.flatMap fun c => processWith doc findTop findImp f c mode none
+      | .element | .root => r.kids.flatMap fun c => processWith doc findTop findImp named callKeeps f c mode none
       | .text | .attribute => [.text r.text]
       | _ => []
 
 /-- number of "conflicts found" warnings issued while processing one node (same traversal as `processWith`) -/
 def warnsWith (doc : Array NodeRec) (findTop : Nat → Nat → Option Tmpl) (findImp : Tmpl → Nat → Nat → Option Tmpl)
-    (warnTop : Nat → Nat → Bool) (warnImp : Tmpl → Nat → Nat → Bool) : Nat → Nat → Nat → Option Tmpl → Nat
+    (warnTop : Nat → Nat → Bool) (warnImp : Tmpl → Nat → Nat → Bool) (named : Nat → Option Tmpl) (callKeeps : Bool) :
+    Nat → Nat → Nat → Option Tmpl → Nat
   | 0, _, _, _ => 0
   | f + 1, n, mode, via =>
     let found := match via with
@@ -505,12 +552,20 @@ def warnsWith (doc : Array NodeRec) (findTop : Nat → Nat → Option Tmpl) (fin
       | none => if warnTop n mode then 1 else 0
       | some cur => if warnImp cur n mode then 1 else 0
     match found with
-    | some t => w + (if t.applyImports then warnsWith doc findTop findImp warnTop warnImp f n mode (some t) else 0)
+    | some t =>
+      let callPart : Nat := match (if t.call = 0 then none else named t.call) with
+        | some nt =>
+          if nt.applyImports then
+            warnsWith doc findTop findImp warnTop warnImp named callKeeps f n mode (some (if callKeeps then t else nt))
+          else 0
+        | none => 0
+      w + callPart +
+        (if t.applyImports then warnsWith doc findTop findImp warnTop warnImp named callKeeps f n mode (some t) else 0)
     | none =>
       let r := doc.getD n default
       match r.kind with
       | .element | .root =>
-        w + (r.kids.map fun c => warnsWith doc findTop findImp warnTop warnImp f c mode none).sum
+        w + (r.kids.map fun c => warnsWith doc findTop findImp warnTop warnImp named callKeeps f c mode none).sum
       | _ => w
 
 end XalanModel.C10
